@@ -342,10 +342,15 @@ def p_greaterthan(p):
 def _field_expression(expr):
     """the group that directly follows ``field:`` is a FieldGroup, also when it is boosted (``field:(a b)^2``)
     """
-    if isinstance(expr, Group):
-        return group_to_fieldgroup(expr)
-    if isinstance(expr, Boost):
-        expr.expr = _field_expression(expr.expr)
+    # no recursion: boosts may be chained at will (``field:(a b)^2^3...``)
+    parent, inner = None, expr
+    while isinstance(inner, Boost):
+        parent, inner = inner, inner.expr
+    if isinstance(inner, Group):
+        inner = group_to_fieldgroup(inner)
+        if parent is None:
+            return inner
+        parent.expr = inner
     return expr
 
 
